@@ -157,6 +157,8 @@ func c19Exec(c *Ctx, op string) string {
 			v4, v6 := terwaydaemon.VerifCheckInstance(lim, mode, cfg)
 			if v6 && (lim.IPv6PerAdapter <= 0 || (mode == daemon.ModeENIMultiIP && lim.IPv6PerAdapter != lim.IPv4PerAdapter)) {
 				c.Violate("C19/check/ipv6", "IPv6 enabled on an instance type that cannot deliver it", op)
+				// the same from the pool's side: it has one per-interface limit, the type's IPv4 quota
+				c.Violate("C06/config/ipv6-quota", fmt.Sprintf("IPv6 left enabled for a pool whose single per-interface limit is the type's IPv4 quota %d while its IPv6 quota is %d: the pool may ask for more IPv6 addresses on an interface than the type allows", lim.IPv4PerAdapter, lim.IPv6PerAdapter), op)
 			}
 			if cfg.EnableENITrunking && lim.MemberAdapterLimit <= 0 {
 				c.Violate("C19/check/trunk", "trunk left enabled without member-ENI capacity", op)
@@ -352,6 +354,26 @@ func c19Adv(c *Ctx, op string, v []int) string {
 		}
 	}
 	return "anno=" + anno + " res=" + resS
+}
+
+// c06ConfigRun: the start-up configuration chain (limits -> checkInstance / getPoolConfig) as far as C06 needs it.
+func c06ConfigRun(c *Ctx, n int) {
+	r := c.R
+	for i := 0; i < n; i++ {
+		ad := Pick(r, []int{2, 3, 4, 8, 16})
+		v4 := Pick(r, []int{1, 2, 6, 10, 20, 30})
+		v6 := Pick(r, []int{0, 1, v4, v4, v4 - 1, v4 / 2, v4 + 4})
+		if v6 < 0 {
+			v6 = 0
+		}
+		ls := fmt.Sprintf("%d %d %d %d %d %d %d", ad, ad+Pick(r, []int{0, 4, 10}), v4, v6, Pick(r, []int{0, 4, 10}), Pick(r, []int{0, 10}), Pick(r, []int{0, 1}))
+		mode := Pick(r, []string{"m", "m", "m", "e"})
+		line := fmt.Sprintf("cap.check %s %s %s %s %s %s", ls, mode, Pick(r, []string{"dual", "dual", "ipv6", "ipv4"}), b01(r.Chance(50)), b01(r.Chance(30)), b01(r.Chance(50)))
+		c.One(line, c19Exec(c, line), v6 > 0 && v6 != v4)
+		line = fmt.Sprintf("cap.pool %s %s %d %d %d %d 0 %s 0 0", ls, mode, Pick(r, []int{0, 2, 100}), Pick(r, []int{0, 1}), Pick(r, []int{5, 10, 50}), Pick(r, []int{0, 2, 5}), b01(r.Chance(40)))
+		c.One(line, c19Exec(c, line), mode == "m")
+		c.Count("config-chain")
+	}
 }
 
 func c19Run(c *Ctx) {
